@@ -22,12 +22,21 @@ class C04Oracle(worldprop.Oracle):
     def after(self, idx, op, ob):
         # the relation is compared over histories: compare and hash everything after every call, so that
         # anything the library memoises is populated before the next mutation
-        for d in self.im.docs:
+        for di, d in enumerate(self.im.docs):
             try:
                 d == d
                 for c in [d] + list(d.bundles):
                     for r in c.get_records():
                         hash(r)
+                        # read-only inspection must not change what a record is equal to: only every other
+                        # document is inspected, so that an inspected record meets a never-inspected equal one
+                        if di % 2:
+                            continue
+                        r.label, r.value, r.get_asserted_types(), r.args, r.formal_attributes, r.extra_attributes
+                        r.get_attribute("prov:location"), r.get_attribute("prov:role")
+                        if hasattr(r, "get_startTime"):
+                            r.get_startTime(), r.get_endTime()
+                        r.get_provn(), str(r), repr(r)
             except Exception as ex:
                 self.fail(idx, "comparison or hash raised", exc=repr(ex)[:200])
 
@@ -233,7 +242,8 @@ def run(tier, seed, log, model_runs=True, enlarged=False):
                                    "the program by one content-preserving transformation (same, record/attribute permutation, "
                                    "prefix renaming, duplicate insertion) or one content-changing edit (value, attribute removed/"
                                    "added, identifier, record removed, record kind, extra bundle), compared in both orders through "
-                                   "the model too; after every call every document is compared with itself and every record hashed (so memoised "
+                                   "the model too; after every call every document is compared with itself and every record hashed and inspected through its "
+                                   "read accessors (label, value, get_attribute, asserted types, times, args; so memoised or lazily created "
                                    "state predates later mutations); at the end all pairs/triples of documents, bundles and sampled records are "
                                    "checked: reflexive, symmetric, transitive, != , hash, and == iff library-level content equal; "
                                    "non-trivial = >=2 Eq calls on documents with >=2 records",
